@@ -1,7 +1,8 @@
 (* C21 - Schema changes behave as declared and persist.  Property theorems only.
    Model/DdlSpec.v is the relational model (what each statement should do), Model/AlterImpl.v the
-   model of what src/database/ddl.rs and the DML paths do to stored rows (as the code is), tied
-   to the real database by the correspondence run (harness/src/bin/c21.rs, Corr/C21.v). *)
+   model of what src/database/ddl.rs and the DML paths do to stored rows (as the code is, after
+   the repairs 2b262ce c3e8980 e35ce21 6de60fd), tied to the real database by the
+   correspondence run (harness/src/bin/c21.rs, Corr/C21.v). *)
 From Coq Require Import ZArith List Bool.
 From TV Require Import Model.DdlSpec Model.AlterImpl Proof.AlterSim Proof.AlterRefute.
 Import ListNotations.
@@ -15,63 +16,53 @@ Theorem ddl_histories_correct :
   forall h, hist_class i_empty h = 0 -> i_run i_empty h = s_run s_empty h.
 Proof. exact hist_correct_l. Qed.
 
-(* ... from any reachable-looking state, not only the empty database *)
+(* ... from any state, not only the empty database *)
 Theorem ddl_histories_simulate :
-  forall h s, clean s = true -> hist_class s h = 0 -> i_run s h = s_run (abs s) h.
+  forall h s, hist_class s h = 0 -> i_run s h = s_run (abs s) h.
 Proof. exact hist_sim. Qed.
 
 (* ADD COLUMN: for every table content, existing rows read the DEFAULT exactly when there is no
    DEFAULT (NULL) or the table shows no row ... *)
 Theorem add_column_reads_default :
-  forall s t tb c, clean s = true -> get t (itabs s) = Some tb -> fits (cty c) (cdef c) = true ->
-    (cdef c = VN \/ live (irows tb) = []) ->
+  forall s t tb c, get t (itabs s) = Some tb -> has_col (cname c) (icols tb) = false ->
+    fits (cty c) (cdef c) = true -> (cdef c = VN \/ live (irows tb) = []) ->
     i_obs1 (fst (i_step s (AddCol t c))) t
     = TRows (map cname (icols tb) ++ [cname c]) (map (fun r => r ++ [cdef c]) (live (irows tb))).
 Proof. exact add_column_reads_default_l. Qed.
-(* ... and as the code is they read NULL whatever the DEFAULT says *)
+(* ... and as the code is they read NULL whatever the DEFAULT says (class 1, still open) *)
 Theorem add_column_reads_null :
-  forall s t tb c, clean s = true -> get t (itabs s) = Some tb -> fits (cty c) (cdef c) = true ->
+  forall s t tb c, get t (itabs s) = Some tb -> has_col (cname c) (icols tb) = false ->
+    fits (cty c) (cdef c) = true ->
     i_obs1 (fst (i_step s (AddCol t c))) t
     = TRows (map cname (icols tb) ++ [cname c]) (map (fun r => r ++ [VN]) (live (irows tb))).
 Proof. exact add_column_reads_null_l. Qed.
 Theorem add_default_refuted : hist_class i_empty w1 = 1 /\ i_run i_empty w1 <> s_run s_empty w1.
 Proof. exact add_default_refuted_l. Qed.
 
-(* DROP COLUMN keeps every other column's values of every row - when no deleted row is stored *)
+(* DROP COLUMN keeps every other column's values of every visible row - whatever deleted rows are
+   stored and however the name is spelled (2b262ce, c3e8980) - and deleted rows stay deleted *)
 Theorem drop_column_preserves_others :
-  forall s t tb c i, clean s = true -> get t (itabs s) = Some tb -> find_col c (icols tb) = Some i ->
-    has_tomb (irows tb) = false ->
-    i_obs1 (fst (i_step s (DropCol t c true))) t
+  forall s t tb c i ex, get t (itabs s) = Some tb -> find_col c (icols tb) = Some i ->
+    (1 < length (icols tb))%nat ->
+    i_obs1 (fst (i_step s (DropCol t c ex))) t
     = TRows (map cname (remove_nth i (icols tb))) (map (remove_nth i) (live (irows tb))).
 Proof. exact drop_column_preserves_others_l. Qed.
-(* as the code is: every stored row, deleted or not, is shown afterwards *)
-Theorem drop_column_shows_all_stored :
-  forall s t tb c i, clean s = true -> get t (itabs s) = Some tb -> find_col c (icols tb) = Some i ->
-    i_obs1 (fst (i_step s (DropCol t c true))) t
-    = TRows (map cname (remove_nth i (icols tb))) (map (fun p => remove_nth i (snd p)) (irows tb)).
-Proof. exact drop_column_shows_all_stored_l. Qed.
-Theorem drop_resurrects_refuted : hist_class i_empty w2 = 2 /\ i_run i_empty w2 <> s_run s_empty w2.
-Proof. exact drop_resurrects_refuted_l. Qed.
-Theorem drop_other_case_refuted : hist_class i_empty w3 = 3 /\ i_run i_empty w3 <> s_run s_empty w3.
-Proof. exact drop_other_case_refuted_l. Qed.
-Theorem drop_only_column_refuted : hist_class i_empty w9 = 9 /\ i_run i_empty w9 <> s_run s_empty w9.
-Proof. exact drop_only_column_refuted_l. Qed.
+Theorem drop_column_keeps_delete_bits :
+  forall c ex tb tb', i_drop_col c ex tb = Some tb' -> map fst (irows tb') = map fst (irows tb).
+Proof. exact drop_column_keeps_delete_bits_l. Qed.
 
 (* RENAME COLUMN keeps all values *)
 Theorem rename_preserves_values :
-  forall s t tb c n i, clean s = true -> get t (itabs s) = Some tb -> find_col c (icols tb) = Some i ->
+  forall s t tb c n i, get t (itabs s) = Some tb -> find_col c (icols tb) = Some i ->
+    has_col n (icols tb) = false ->
     i_obs1 (fst (i_step s (RenameCol t c n))) t = TRows (map cname (rename_at i n (icols tb))) (live (irows tb)).
 Proof. exact rename_preserves_values_l. Qed.
 Theorem rename_indexed_refuted : hist_class i_empty w6 = 6 /\ i_run i_empty w6 <> s_run s_empty w6.
 Proof. exact rename_indexed_refuted_l. Qed.
-Theorem rename_duplicate_refuted : hist_class i_empty w7 = 7 /\ i_run i_empty w7 <> s_run s_empty w7.
-Proof. exact rename_duplicate_refuted_l. Qed.
-Theorem add_duplicate_refuted : hist_class i_empty w4 = 4 /\ i_run i_empty w4 <> s_run s_empty w4.
-Proof. exact add_duplicate_refuted_l. Qed.
 
 (* TRUNCATE empties the table, and a row inserted afterwards is the one row shown *)
 Theorem truncate_then_insert_visible :
-  forall s t tb b r, clean s = true -> get t (itabs s) = Some tb -> fits_row (icols tb) r = true ->
+  forall s t tb b r, get t (itabs s) = Some tb -> fits_row (icols tb) r = true ->
     i_obs1 (fst (i_step s (Truncate t b))) t = TRows (map cname (icols tb)) [] /\
     i_obs1 (fst (i_step (fst (i_step s (Truncate t b))) (Insert t r))) t = TRows (map cname (icols tb)) [r].
 Proof. exact truncate_then_insert_visible_l. Qed.
@@ -80,8 +71,29 @@ Theorem index_missing_column_refuted : hist_class i_empty w8 = 8 /\ i_run i_empt
 Proof. exact index_missing_column_refuted_l. Qed.
 Theorem drop_column_index_file_refuted : hist_class i_empty w12 = 12 /\ i_run i_empty w12 <> s_run s_empty w12.
 Proof. exact drop_column_index_file_refuted_l. Qed.
-Theorem update_resurrects_refuted : hist_class i_empty w5 = 5 /\ i_run i_empty w5 <> s_run s_empty w5.
-Proof. exact update_resurrects_refuted_l. Qed.
+
+(* The classes repaired in /repo: DROP COLUMN, ADD COLUMN without DEFAULT, RENAME of a column
+   without index and UPDATE over fully-sized records belong to no class any more, in any state ... *)
+Theorem former_classes_repaired :
+  forall s t c ex n sc sv wc wv,
+    step_class s (DropCol t c ex) = 0 /\
+    step_class s (AddCol t (mkCol c 0 VN)) = 0 /\
+    (existsb (idx_on t c) (iidx s) = false -> step_class s (RenameCol t c n) = 0) /\
+    (ishort (tbl_of s t) = false -> step_class s (UpdateEq t sc sv wc wv) = 0 /\ step_class s (UpdateAll t sc sv) = 0).
+Proof. exact former_classes_repaired_l. Qed.
+(* ... and the former witnesses of classes 2, 3, 4, 5, 7, 9 now agree with the relational model *)
+Theorem drop_resurrects_repaired : hist_class i_empty w2 = 0 /\ i_run i_empty w2 = s_run s_empty w2.
+Proof. exact drop_resurrects_repaired_l. Qed.
+Theorem drop_other_case_repaired : hist_class i_empty w3 = 0 /\ i_run i_empty w3 = s_run s_empty w3.
+Proof. exact drop_other_case_repaired_l. Qed.
+Theorem add_duplicate_repaired : hist_class i_empty w4 = 0 /\ i_run i_empty w4 = s_run s_empty w4.
+Proof. exact add_duplicate_repaired_l. Qed.
+Theorem update_resurrects_repaired : hist_class i_empty w5 = 0 /\ i_run i_empty w5 = s_run s_empty w5.
+Proof. exact update_resurrects_repaired_l. Qed.
+Theorem rename_duplicate_repaired : hist_class i_empty w7 = 0 /\ i_run i_empty w7 = s_run s_empty w7.
+Proof. exact rename_duplicate_repaired_l. Qed.
+Theorem drop_only_column_repaired : hist_class i_empty w9 = 0 /\ i_run i_empty w9 = s_run s_empty w9.
+Proof. exact drop_only_column_repaired_l. Qed.
 
 (* non-vacuity: a 16-statement history over a populated table through every kind of statement,
    outside all classes, with the rows shown after its DROP COLUMN *)
@@ -91,52 +103,58 @@ Example c21_witness :
 Proof. exact good_in_scope_l. Qed.
 
 Check ddl_histories_correct : forall h, hist_class i_empty h = 0 -> i_run i_empty h = s_run s_empty h.
-Check ddl_histories_simulate : forall h s, clean s = true -> hist_class s h = 0 -> i_run s h = s_run (abs s) h.
-Check add_column_reads_default : forall s t tb c, clean s = true -> get t (itabs s) = Some tb -> fits (cty c) (cdef c) = true ->
-    (cdef c = VN \/ live (irows tb) = []) ->
+Check ddl_histories_simulate : forall h s, hist_class s h = 0 -> i_run s h = s_run (abs s) h.
+Check add_column_reads_default : forall s t tb c, get t (itabs s) = Some tb -> has_col (cname c) (icols tb) = false ->
+    fits (cty c) (cdef c) = true -> (cdef c = VN \/ live (irows tb) = []) ->
     i_obs1 (fst (i_step s (AddCol t c))) t
     = TRows (map cname (icols tb) ++ [cname c]) (map (fun r => r ++ [cdef c]) (live (irows tb))).
-Check add_column_reads_null : forall s t tb c, clean s = true -> get t (itabs s) = Some tb -> fits (cty c) (cdef c) = true ->
+Check add_column_reads_null : forall s t tb c, get t (itabs s) = Some tb -> has_col (cname c) (icols tb) = false ->
+    fits (cty c) (cdef c) = true ->
     i_obs1 (fst (i_step s (AddCol t c))) t
     = TRows (map cname (icols tb) ++ [cname c]) (map (fun r => r ++ [VN]) (live (irows tb))).
-Check drop_column_preserves_others : forall s t tb c i, clean s = true -> get t (itabs s) = Some tb -> find_col c (icols tb) = Some i ->
-    has_tomb (irows tb) = false ->
-    i_obs1 (fst (i_step s (DropCol t c true))) t
+Check drop_column_preserves_others : forall s t tb c i ex, get t (itabs s) = Some tb -> find_col c (icols tb) = Some i ->
+    (1 < length (icols tb))%nat ->
+    i_obs1 (fst (i_step s (DropCol t c ex))) t
     = TRows (map cname (remove_nth i (icols tb))) (map (remove_nth i) (live (irows tb))).
-Check drop_column_shows_all_stored : forall s t tb c i, clean s = true -> get t (itabs s) = Some tb -> find_col c (icols tb) = Some i ->
-    i_obs1 (fst (i_step s (DropCol t c true))) t
-    = TRows (map cname (remove_nth i (icols tb))) (map (fun p => remove_nth i (snd p)) (irows tb)).
-Check rename_preserves_values : forall s t tb c n i, clean s = true -> get t (itabs s) = Some tb -> find_col c (icols tb) = Some i ->
+Check drop_column_keeps_delete_bits : forall c ex tb tb', i_drop_col c ex tb = Some tb' -> map fst (irows tb') = map fst (irows tb).
+Check rename_preserves_values : forall s t tb c n i, get t (itabs s) = Some tb -> find_col c (icols tb) = Some i ->
+    has_col n (icols tb) = false ->
     i_obs1 (fst (i_step s (RenameCol t c n))) t = TRows (map cname (rename_at i n (icols tb))) (live (irows tb)).
-Check truncate_then_insert_visible : forall s t tb b r, clean s = true -> get t (itabs s) = Some tb -> fits_row (icols tb) r = true ->
+Check truncate_then_insert_visible : forall s t tb b r, get t (itabs s) = Some tb -> fits_row (icols tb) r = true ->
     i_obs1 (fst (i_step s (Truncate t b))) t = TRows (map cname (icols tb)) [] /\
     i_obs1 (fst (i_step (fst (i_step s (Truncate t b))) (Insert t r))) t = TRows (map cname (icols tb)) [r].
+Check former_classes_repaired : forall s t c ex n sc sv wc wv,
+    step_class s (DropCol t c ex) = 0 /\
+    step_class s (AddCol t (mkCol c 0 VN)) = 0 /\
+    (existsb (idx_on t c) (iidx s) = false -> step_class s (RenameCol t c n) = 0) /\
+    (ishort (tbl_of s t) = false -> step_class s (UpdateEq t sc sv wc wv) = 0 /\ step_class s (UpdateAll t sc sv) = 0).
 Check add_default_refuted : hist_class i_empty w1 = 1 /\ i_run i_empty w1 <> s_run s_empty w1.
-Check drop_resurrects_refuted : hist_class i_empty w2 = 2 /\ i_run i_empty w2 <> s_run s_empty w2.
-Check drop_other_case_refuted : hist_class i_empty w3 = 3 /\ i_run i_empty w3 <> s_run s_empty w3.
-Check add_duplicate_refuted : hist_class i_empty w4 = 4 /\ i_run i_empty w4 <> s_run s_empty w4.
-Check update_resurrects_refuted : hist_class i_empty w5 = 5 /\ i_run i_empty w5 <> s_run s_empty w5.
 Check rename_indexed_refuted : hist_class i_empty w6 = 6 /\ i_run i_empty w6 <> s_run s_empty w6.
-Check rename_duplicate_refuted : hist_class i_empty w7 = 7 /\ i_run i_empty w7 <> s_run s_empty w7.
 Check index_missing_column_refuted : hist_class i_empty w8 = 8 /\ i_run i_empty w8 <> s_run s_empty w8.
 Check drop_column_index_file_refuted : hist_class i_empty w12 = 12 /\ i_run i_empty w12 <> s_run s_empty w12.
-Check drop_only_column_refuted : hist_class i_empty w9 = 9 /\ i_run i_empty w9 <> s_run s_empty w9.
+Check drop_resurrects_repaired : hist_class i_empty w2 = 0 /\ i_run i_empty w2 = s_run s_empty w2.
+Check drop_other_case_repaired : hist_class i_empty w3 = 0 /\ i_run i_empty w3 = s_run s_empty w3.
+Check add_duplicate_repaired : hist_class i_empty w4 = 0 /\ i_run i_empty w4 = s_run s_empty w4.
+Check update_resurrects_repaired : hist_class i_empty w5 = 0 /\ i_run i_empty w5 = s_run s_empty w5.
+Check rename_duplicate_repaired : hist_class i_empty w7 = 0 /\ i_run i_empty w7 = s_run s_empty w7.
+Check drop_only_column_repaired : hist_class i_empty w9 = 0 /\ i_run i_empty w9 = s_run s_empty w9.
 
 Print Assumptions ddl_histories_correct.
 Print Assumptions ddl_histories_simulate.
 Print Assumptions add_column_reads_default.
 Print Assumptions add_column_reads_null.
 Print Assumptions drop_column_preserves_others.
-Print Assumptions drop_column_shows_all_stored.
+Print Assumptions drop_column_keeps_delete_bits.
 Print Assumptions rename_preserves_values.
 Print Assumptions truncate_then_insert_visible.
+Print Assumptions former_classes_repaired.
 Print Assumptions add_default_refuted.
-Print Assumptions drop_resurrects_refuted.
-Print Assumptions drop_other_case_refuted.
-Print Assumptions add_duplicate_refuted.
-Print Assumptions update_resurrects_refuted.
 Print Assumptions rename_indexed_refuted.
-Print Assumptions rename_duplicate_refuted.
 Print Assumptions index_missing_column_refuted.
-Print Assumptions drop_only_column_refuted.
 Print Assumptions drop_column_index_file_refuted.
+Print Assumptions drop_resurrects_repaired.
+Print Assumptions drop_other_case_repaired.
+Print Assumptions add_duplicate_repaired.
+Print Assumptions update_resurrects_repaired.
+Print Assumptions rename_duplicate_repaired.
+Print Assumptions drop_only_column_repaired.
